@@ -132,7 +132,7 @@ BatchVerdict ==
     ELSE IF Len(Ev.cols) # Len(rd.proj) THEN {"batch:columns"}
     ELSE UNION {BatchColVerdict(j) : j \in 1..Len(rd.proj)}
 
-RootOk(e) == e.name.n >= 0                  \* names are records [b, rep, n]; n = -1: the library returned no name
+RootOk(e) == e.name # <<255, 253>>          \* <<255, 253>>: the library returned no name (NULL)
 ElemOk(e, s) == /\ e.name = s.name /\ e.leaf = s.leaf /\ e.rep = s.rep
                 /\ (s.leaf => e.type = s.type /\ e.tlen = s.tlen)
 LeafIdx == SelectSeq([i \in 1..Len(sch) |-> IF sch[i].leaf THEN i ELSE 0], LAMBDA x : x > 0)   \* element index = position (root is 0)
